@@ -40,6 +40,10 @@ fn make(req: &Value) -> Result<Interpreter, E> {
     if let Some(b) = hx_opt(req, "script")? {
         let s = Script::from_bytes(&b).map_err(|e| drv(format!("script parse: {}", e)))?;
         Ok(Interpreter::from_script(&s))
+    } else if let Some(cb) = req.get("ctor_bits") {
+        // the public constructor that takes a transaction, an input index (not checked by it) and an element list
+        let tx = Transaction::from_bytes(&hx(cb, "tx")?).map_err(|e| drv(format!("tx parse: {}", e)))?;
+        Ok(Interpreter::from_transaction_and_script_bits(tx, un(cb, "txin")? as usize, bits_from_json(get(cb, "bits")?)?))
     } else if let Some(bits) = req.get("bits") {
         let s = Script::from_script_bits(bits_from_json(bits)?);
         Ok(Interpreter::from_script(&s))
